@@ -213,6 +213,15 @@ class _Owner:
         cs += [_view_eq(b, self.g, [int(v) for v in b.idx]) for b in self.branches]
         cs += [_view_eq(s, self.g, [int(v) for v in s.idx], local_ids=False) for s in self.segs]
         c.prove(f"history.{step}.{self.tag}.views_equal_ghost", And(*cs))
+        # a kept branch's segments stay its consecutive node pairs whatever was written meanwhile
+        ok = True
+        for b in self.branches:
+            ids = [int(v) for v in b.idx]
+            segs = b.get_segments()
+            ok = ok and len(segs) == len(ids) - 1
+            for sg, (u, v) in zip(segs, zip(ids, ids[1:])):
+                ok = And(ok, *[eq(x, self.g[k][w]) for k in ("x", "r") for x, w in zip(flat(sg.get_ndata(k)), (u, v))])
+        c.prove(f"history.{step}.{self.tag}.branch_segments_are_consecutive_pairs", ok)
 
 
 class _Detached:
@@ -257,7 +266,7 @@ def h_history(c, n, steps):
         return c.real(f"v{nfresh[0]}")
 
     for s in range(steps):
-        op = c.pick(f"op{s}", ["write", "write_via_relative", "copy", "detach_node", "detach_path", "detach_branch", "detach_segment", "write_detached"])
+        op = c.pick(f"op{s}", ["write", "write_via_relative", "copy", "detach_node", "detach_path", "detach_branch", "detach_segment", "write_detached", "write_pid"])
         ow = owners[c.choice(f"owner{s}", len(owners))] if len(owners) > 1 else owners[0]
         if op == "write":
             i = c.choice(f"i{s}", n)
@@ -266,6 +275,18 @@ def h_history(c, n, steps):
             v = 7 if k == "type" else fresh()
             setattr(h, k, v) if k != "w" else h.__setitem__("w", v)
             ow.g[k][i] = v
+        elif op == "write_pid":
+            # re-parent node i under a node outside its own subtree (stays a tree), through a tree node handle
+            from symv.trees import descendants
+
+            cur = [int(p) for p in ow.g["pid"]]
+            i = 1 + c.choice(f"i{s}", n - 1) if n > 1 else 0
+            if n < 2:
+                c.assume(False)
+            cands = [j for j in range(n) if j not in descendants(cur, i)]
+            j = cands[c.choice(f"j{s}", len(cands))]
+            ow.handles[i].pid = j
+            ow.g["pid"][i] = j
         elif op == "write_via_relative":
             i = c.choice(f"i{s}", n)
             par = ow.t.node(i).parent()
